@@ -227,8 +227,10 @@ pub fn run(pool: &Pool, cfg: &E1Config, report: &mut RunReport) -> E1Stats {
                     let r = v["recs"].as_array().cloned().unwrap_or_default();
                     if depth == 1 && ti == ntasks - 1 {
                         // compare with task 0's records
-                        let first: Vec<Value> = recs.iter().take(r.len()).cloned().collect();
-                        if first != r {
+                        let proj = |v: &Value| json!({"h": v["h"], "m": v["m"], "ok": v["ok"], "fp": v["fp"], "sig": v["dev"]["sig"], "obs": v["obs"]});
+                        let first: Vec<Value> = recs.iter().take(r.len()).map(proj).collect();
+                        let second: Vec<Value> = r.iter().map(proj).collect();
+                        if first != second {
                             report.machinery_errors.push(format!("{}: depth-1 level is not reproducible (nondeterminism not owned)", spec));
                         }
                     } else {
